@@ -28,6 +28,13 @@ theorem pinv_step (cfg : Cfg) (hwf : cfg.WF = true) (s : St) (d d' : Doc) (op : 
     rw [hl] at this
     simp only [Bool.and_eq_true, Option.isNone_iff_eq_none] at this
     exact key _ rfl this
+  | edit =>
+    cases hdn : d.done with
+    | true => simp [legalStep, hdn] at hl
+    | false =>
+      simp only [legalStep, hdn, Bool.false_eq_true, if_false, Option.some.injEq] at hl
+      subst hl
+      exact key (s, none) (by simp [stepR, hdone, hdn, okR]) ⟨rfl, h⟩
   | buildNoSession =>
     cases hdn : d.done with
     | true => simp [legalStep, hdn] at hl
@@ -71,7 +78,18 @@ theorem pinv_step (cfg : Cfg) (hwf : cfg.WF = true) (s : St) (d d' : Doc) (op : 
         have := (build_golang_inv cfg true lr s hg (pinv_inv h) (by rw [hdone, hdn])).2.2.2.2
         rw [hr] at this
         exact this
-      have ht := pinv_hsTail cfg lr s1 (d.afterBuild true) hp1 hbuilt hdn1 hlock htr
+      have hbf : (s1.state != .pskAllSet || s1.binderFresh) = true := by
+        cases hg : cfg.golang with
+        | false =>
+          have := build_binder_fresh cfg lr s hg (pinv_inv h) (by rw [hdone, hdn]) (by rw [hr])
+          rw [hr] at this
+          exact this
+        | true =>
+          have hi := pinv_inv hp1
+          simp only [inv, hg, if_true, Bool.and_eq_true, bne_iff_ne, ne_eq] at hi
+          have : s1.state ≠ .pskAllSet := hi.1.1.1.1.1.2.1.2
+          simp [this]
+      have ht := pinv_hsTail cfg lr s1 (d.afterBuild true) hp1 hbuilt hdn1 hlock htr hbf
       have hd' : { d.afterBuild true with done := true } = d' := by rw [← hl]; simp [Doc.afterBuild, hdn]
       rw [hd'] at ht
       exact ht
